@@ -399,6 +399,21 @@ StylesheetExecutionContextDefault::getCurrentTemplate() const
 void
 StylesheetExecutionContextDefault::pushCurrentTemplate(const ElemTemplate*  theTemplate)
 {       
+    if (m_currentTemplateStack.size() >= eMaximumTemplateNestingDepth)
+    {
+        const GetCachedString   theGuard(*this);
+
+        throw XSLTProcessorException(
+                getMemoryManager(),
+                XalanMessageLoader::getMessage(
+                    theGuard.get(),
+                    XalanMessages::InfiniteRecursion_1Param,
+                    theTemplate != 0 ?
+                        theTemplate->getElementName() :
+                        Constants::ELEMNAME_FOREACH_WITH_PREFIX_STRING),
+                theTemplate != 0 ? theTemplate->getLocator() : 0);
+    }
+
     m_currentTemplateStack.push_back(theTemplate);
 }
 
